@@ -58,7 +58,8 @@ type attempt struct {
 	CallsNeverReturned   int      `json:"burst_calls_never_returned,omitempty"`
 	MedianCall           string   `json:"burst_median_call,omitempty"`
 	BurstWall            string   `json:"burst_wall,omitempty"`
-	Reuse                *attempt `json:"reused_fctx_request,omitempty"` // publishrefused: the next request with the same FContext
+	ReaderHeld           string   `json:"reader_held_between_lookup_and_send,omitempty"` // latehandoff
+	Reuse                *attempt `json:"reused_fctx_request,omitempty"`                 // publishrefused: the next request with the same FContext
 }
 
 // peerFlags is the peer-side state of one attempt (one mutex).
@@ -137,8 +138,10 @@ type callSpec struct {
 	payload []byte
 	want    []byte // expected result bytes when the peer answers
 	flags   *peerFlags
-	shared  bool   // other calls are in flight on the same transport: no per-call registry check
-	release func() // make the peer let go of everything, so that a stuck call can come back
+	pre     func()        // runs in the calling goroutine immediately before the timed call
+	preTime time.Duration // how long pre may take (added to the watchdog)
+	shared  bool          // other calls are in flight on the same transport: no per-call registry check
+	release func()        // make the peer let go of everything, so that a stuck call can come back
 }
 
 // invoke performs the call under the watchdog and fills the attempt.
@@ -153,6 +156,9 @@ func invoke(cs callSpec) *attempt {
 		gid.Store(curGID())
 		var res thrift.TTransport
 		var err error
+		if cs.pre != nil {
+			cs.pre()
+		}
 		start := time.Now()
 		if cs.c.Op == "request" {
 			res, err = cs.tr.Request(cs.fctx, cs.payload)
@@ -175,7 +181,7 @@ func invoke(cs callSpec) *attempt {
 		}
 		close(done)
 	}()
-	wd := time.NewTimer(cs.c.T() + c13Watchdog)
+	wd := time.NewTimer(cs.c.T() + cs.preTime + c13Watchdog)
 	defer wd.Stop()
 	select {
 	case <-done:
